@@ -6,7 +6,6 @@ package objects
 import (
 	"bytes"
 	"encoding/binary"
-	"errors"
 	"fmt"
 	"io"
 	"sort"
@@ -163,6 +162,16 @@ func (d *StrListDecoder) readUint32(r io.Reader) (uint32, error) {
 	return binary.BigEndian.Uint32(b), nil
 }
 
+// midListEOF: once the count of a list has been read, the stream ending before
+// its last string is complete is a truncation, not the regular end of input
+// (io.ReadFull reports io.EOF when not a single byte of a string could be read)
+func midListEOF(err error) error {
+	if err == io.EOF {
+		return io.ErrUnexpectedEOF
+	}
+	return err
+}
+
 func (d *StrListDecoder) Read(r io.Reader) (int64, []string, error) {
 	d.pos = 0
 	count, err := d.readUint32(r)
@@ -174,7 +183,7 @@ func (d *StrListDecoder) Read(r io.Reader) (int64, []string, error) {
 	for i = 0; i < count; i++ {
 		l, err := d.readUint16(r)
 		if err != nil {
-			return 0, nil, err
+			return 0, nil, midListEOF(err)
 		}
 		if l == 0 {
 			sl = append(sl, "")
@@ -183,13 +192,10 @@ func (d *StrListDecoder) Read(r io.Reader) (int64, []string, error) {
 		d.ensureBufSize(int(l))
 		n, err := io.ReadFull(r, d.buf[:l])
 		d.pos += n
-		sl = append(sl, string(d.buf[:n]))
-		if errors.Is(err, io.EOF) && i == count-1 {
-			break
-		}
 		if err != nil {
-			return 0, nil, err
+			return 0, nil, midListEOF(err)
 		}
+		sl = append(sl, string(d.buf[:n]))
 	}
 	return int64(d.pos), sl, nil
 }
@@ -211,7 +217,7 @@ func (d *StrListDecoder) ReadBytes(r io.Reader) (n int, b []byte, err error) {
 		d.ensureBufSize(n + 2)
 		_, err = io.ReadFull(r, d.buf[n:n+2])
 		if err != nil {
-			err = fmt.Errorf("error reading string length (2 bytes): %w", err)
+			err = fmt.Errorf("error reading string length (2 bytes): %w", midListEOF(err))
 			return
 		}
 		l := binary.BigEndian.Uint16(d.buf[n:])
@@ -220,11 +226,8 @@ func (d *StrListDecoder) ReadBytes(r io.Reader) (n int, b []byte, err error) {
 		d.ensureBufSize(n + int(l))
 		m, err = io.ReadFull(r, d.buf[n:n+int(l)])
 		n += m
-		if errors.Is(err, io.EOF) && i == count-1 {
-			break
-		}
 		if err != nil {
-			err = fmt.Errorf("error reading string (%d bytes): %w", l, err)
+			err = fmt.Errorf("error reading string (%d bytes): %w", l, midListEOF(err))
 			return
 		}
 	}
